@@ -575,6 +575,27 @@ pub struct Sim {
     /// position becomes `.1` (a second handle on the same open file was used in between)
     pub reposition: Option<(u32, u64)>,
     pos_override: Option<u64>,
+    /// "the application writes the movie into two regions of one big file": at the listed API
+    /// calls the shared offset alternates between the low region (where writing started) and a
+    /// high region `gap` bytes beyond everything written so far. Nothing written is ever
+    /// overwritten (`region_collision` records the exception), so the finished file is intact.
+    pub regions: Option<RegionPlan>,
+    region_target_high: Option<bool>,
+    in_high: bool,
+    low_cursor: u64,
+    high_cursor: Option<u64>,
+    high_start: u64,
+    pub region_moves: u64,
+    pub region_collision: bool,
+}
+
+#[derive(Clone, Debug, PartialEq, Eq, serde::Serialize, serde::Deserialize)]
+pub struct RegionPlan {
+    /// API call indices at which the offset changes region
+    pub toggles: Vec<u32>,
+    pub gap: u64,
+    /// API call (write_end) before which the offset must stand in the high region again
+    pub final_api: u32,
 }
 
 pub type SimRef = Rc<RefCell<Sim>>;
@@ -605,6 +626,14 @@ impl Sim {
             dead_from: None,
             reposition: None,
             pos_override: None,
+            regions: None,
+            region_target_high: None,
+            in_high: false,
+            low_cursor: 0,
+            high_cursor: None,
+            high_start: u64::MAX,
+            region_moves: 0,
+            region_collision: false,
         }
     }
 
@@ -638,13 +667,55 @@ impl Sim {
                 self.reposition = None;
             }
         }
+        if let Some(plan) = &self.regions {
+            let now_high = self.region_target_high.unwrap_or(self.in_high);
+            let mut want = now_high;
+            if plan.toggles.contains(&api) {
+                want = !want;
+            }
+            if api == plan.final_api && (self.high_start != u64::MAX || want || self.region_target_high == Some(true)) {
+                want = true;
+            }
+            self.region_target_high = if want != self.in_high { Some(want) } else { None };
+        }
     }
 
-    /// Applied at the start of every stream call of a handle.
-    fn moved_position(&mut self) -> Option<u64> {
-        let p = self.pos_override.take()?;
-        self.fired.repositioned += 1;
-        Some(p)
+    /// No further moves of the offset (called before the read-back).
+    pub fn clear_moves(&mut self) {
+        self.reposition = None;
+        self.pos_override = None;
+        self.regions = None;
+        self.region_target_high = None;
+    }
+
+    /// Applied at the start of every stream call of a handle: where the handle stands now.
+    fn moved_position(&mut self, cur: u64) -> Option<u64> {
+        if let Some(p) = self.pos_override.take() {
+            self.fired.repositioned += 1;
+            return Some(p);
+        }
+        let want = self.region_target_high.take()?;
+        if want == self.in_high {
+            return None;
+        }
+        self.region_moves += 1;
+        self.in_high = want;
+        if want {
+            self.low_cursor = cur;
+            let gap = self.regions.as_ref().map(|p| p.gap).unwrap_or(0);
+            let p = match self.high_cursor {
+                Some(h) => h,
+                None => {
+                    let h = self.disk.len().max(cur).saturating_add(gap);
+                    self.high_start = h;
+                    h
+                }
+            };
+            Some(p)
+        } else {
+            self.high_cursor = Some(cur);
+            Some(self.low_cursor)
+        }
     }
 
     fn take_fault(&mut self, seq: u64) -> Option<Fault> {
@@ -796,7 +867,7 @@ impl SimFile {
 impl Read for SimFile {
     fn read(&mut self, buf: &mut [u8]) -> io::Result<usize> {
         let mut s = self.sim.borrow_mut();
-        if let Some(p) = s.moved_position() {
+        if let Some(p) = s.moved_position(self.pos) {
             self.pos = p;
         }
         let fault = s.enter(OpKind::Read, self.pos, buf.len() as u64)?;
@@ -828,7 +899,7 @@ impl Read for SimFile {
 impl Write for SimFile {
     fn write(&mut self, buf: &[u8]) -> io::Result<usize> {
         let mut s = self.sim.borrow_mut();
-        if let Some(p) = s.moved_position() {
+        if let Some(p) = s.moved_position(self.pos) {
             self.pos = p;
         }
         let fault = s.enter(OpKind::Write, self.pos, buf.len() as u64)?;
@@ -844,6 +915,9 @@ impl Write for SimFile {
             return Ok(0);
         }
         let n = s.allowance(buf.len(), fault);
+        if !s.in_high && s.high_cursor.is_some() && self.pos.saturating_add(n as u64) > s.high_start {
+            s.region_collision = true;
+        }
         s.disk.write_at(self.pos, &buf[..n]);
         s.bytes_in_call += n as u64;
         s.total_bytes += n as u64;
@@ -858,7 +932,7 @@ impl Write for SimFile {
 
     fn flush(&mut self) -> io::Result<()> {
         let mut s = self.sim.borrow_mut();
-        if let Some(p) = s.moved_position() {
+        if let Some(p) = s.moved_position(self.pos) {
             self.pos = p;
         }
         s.enter(OpKind::Flush, self.pos, 0)?;
@@ -871,7 +945,7 @@ impl Write for SimFile {
 impl Seek for SimFile {
     fn seek(&mut self, to: SeekFrom) -> io::Result<u64> {
         let mut s = self.sim.borrow_mut();
-        if let Some(p) = s.moved_position() {
+        if let Some(p) = s.moved_position(self.pos) {
             self.pos = p;
         }
         let (tag, arg) = match to {
